@@ -907,8 +907,8 @@ PROPS["C20"] = dict(
 )
 
 PROPS["C16"] = dict(
-    lean_targets=["SJ.Props.C16", "SJ.Props.C16Float", "SJ.Props.Typed", "SJ.Audit.C16"],
-    configs=dict(quick=["d", "fr"], thorough=["d", "fr", "po", "ap"]),
+    lean_targets=["SJ.Props.C16", "SJ.Props.C16Float", "SJ.Props.C16Ap", "SJ.Props.C16ApFloat", "SJ.Props.Typed", "SJ.Audit.C16"],
+    configs=dict(quick=["d", "fr", "ap"], thorough=["d", "fr", "po", "ap"]),
     gen_keys=["fromvalue."],
     rule="(schema, value) pairs for the universal DeserializeSeed of harness/src/schema.rs, each run through from_value (Value by value), "
          "&Value and from_str(to_string(value)) followed by end(): a fixed corpus (every leaf target and every leaf under Option / newtype / "
@@ -979,17 +979,32 @@ PROPS["C16"] = dict(
              "visit_unit, the text deserializer reads []) and stated for both models as a kernel-checked example — the three paths "
              "disagree, which is exactly the case the STATEMENT names as outside the claim ('zero-length tuple variants ... accepted "
              "from text only'), so it is no finding and the oracle keeps skipping it; zero-length tuples / tuple structs (T0;) are "
-             "inside claim and theorem (all three accept [] only). Missing: arbitrary_precision — a Value then holds number LITERALS "
-             "(any RFC 8259 spelling) and from_value converts them with str::parse (rustParseInt / rustParseF64: correctly rounded, "
-             "saturating), while the text side is unchanged (c20_typed_same); what a proof needs beyond the present one: the leaf "
-             "lemmas for an arbitrary literal (deNumber_lit exists) against rustParseInt / rustParseF64 — integer targets agree "
-             "except the literal -0 (open finding C16-ap-negative-zero), f64 targets agree when the configured conversion is "
-             "correctly rounded on the literal (float_roundtrip: C07; otherwise a named hypothesis like FloatsRoundTrip) and the "
-             "literal is in range (open finding C16-ap-non-finite-f64), Value targets differ on -0 and Display-form literals (open "
-             "findings) — and VOK / HeadOf extended to literals. For it the "
-             "three-way agreement is carried by the correspondence run: the executable specification compares the three REAL "
-             "outcomes on every generated pair and the driver's third model field is computed by the typed model from the text "
-             "(0 disagreements outside the three open ap findings). Observation outside the claim (f32 targets are excluded by the statement): under float_roundtrip "
+             "inside claim and theorem (all three accept [] only). arbitrary_precision (c16_text_agrees_ap_partial, Props/C16Ap.lean): "
+             "a Value then holds number LITERALS in any RFC 8259 spelling, to_string prints them verbatim, from_value converts them "
+             "with str::parse (Number::deserialize_iN = self.n.parse::<iN>(), deserialize_f64 = self.n.parse::<f64>(): "
+             "rustParseInt / rustParseF64, std assumed correctly rounded and saturating) and the text path runs the JSON number "
+             "scanner on the same bytes (it does not consult the feature outside Value targets: c20_typed_same). Proved for every "
+             "schema of the same fragment (Value targets included) and every value of an arbitrary_precision build, outside THREE "
+             "exclusions that correspond one to one to the three open findings, each tested schema-directed (Schema.allPos, "
+             "Spec/SchemaAp.lean: wherever a leaf target meets a value on the way the deserializers visit the pair) and each shown "
+             "necessary by a kernel-checked instance of both models: (a) apNegZero - a signed 8-64-bit integer target meets the "
+             "literal -0 (C16-ap-negative-zero: \"-0\".parse::<i8>() = Ok(0), the scanner yields the float -0.0; unsigned, 128-bit and "
+             "f64 targets on -0 are inside the theorem); (b) apNonFinite - an f64 target meets a literal whose nearest binary64 is "
+             "not finite (C16-ap-non-finite-f64: parse saturates to inf, the scanner answers number out of range); (c) apAnyMoved - "
+             "a Value target meets a value with a literal that Number::deserialize_any re-renders (-0 through as_i64, and a literal "
+             "equal to f64::to_string of its value but not to ryu's spelling through the as_f64 shortcut: C16-ap-negative-zero second "
+             "half, C16-ap-display-form; what ryu / Display print is the Ext parameter). One hypothesis, not an exclusion: apAccurate - "
+             "wherever an f64 target meets a literal of finite range the JSON number conversion of the build returns the binary64 "
+             "nearest to the exact value (the statement's 'float_roundtrip or short float literals'); discharged under "
+             "float_roundtrip from C07 for literals shorter than 2^29 - 20 bytes whose exponent digits pass de.rs's i32 guard "
+             "(c16_ap_accurate_fr, c16_text_agrees_ap_fr); in the default build it stays a hypothesis (true of short literals by "
+             "C08's c08_exact_short, not assembled; 1,723 of 31,342 quick ap cases with an f64 target on a literal violate it and "
+             "are compared on success / failure only). A literal with a fraction or an exponent under a 128-bit integer target is "
+             "refused by the caller of scan_integer128 as without the feature (Agree1w). The executable statement of op c16 in the "
+             "ap configuration applies exactly these exclusions (c16_ap_oracle_domain: Model.FromValue.c16ApExcluded = the three "
+             "tests) and reports a failure inside the theorem's domain under a message no known finding matches: 421,842 of 425,930 "
+             "quick ap c16 pairs are inside (3,513 statement-excluded, 575 in the findings, 477 of which disagree), 0 failures. The "
+             "Observation outside the claim (f32 targets are excluded by the statement): under float_roundtrip "
              "from_value::<f32>(1.0000000596046448) = 0x3f800000 (f64 -> f32 cast, ties to even) while "
              "from_str::<f32>(\"1.0000000596046448\") = 0x3f800001 (parsed straight to f32) — c16 d g d3ff0000010000000 in the fr "
              "build; in the default build the three agree",
@@ -1017,14 +1032,19 @@ PROPS["C16"] = dict(
                "included under the float hypothesis FloatsRoundTrip — c16_text_agrees_fr: from RyuShortest under float_roundtrip —, "
                "floats under 128-bit integer targets included (refused by the caller of scan_integer128), the exclusion 'struct "
                "variant written as an array' schema-directed: strings, "
-               "maps with every key kind, structs, enums, IgnoredAny and nested Value included; missing only arbitrary_precision). The typed model is compared with the "
+               "maps with every key kind, structs, enums, IgnoredAny and nested Value included), and under arbitrary_precision "
+               "c16_text_agrees_ap_partial / c16_text_agrees_ap_fr (values holding number literals in any spelling, from_value by "
+               "str::parse against the JSON scanner: agreement outside three exclusions = the three open findings, each necessary "
+               "by a kernel-checked instance; float hypothesis discharged from C07 under float_roundtrip) with c16_ap_oracle_domain "
+               "(the ap oracle applies exactly those exclusions). The typed model is compared with the "
                "crate on every C16 pair's text and on ~200k (schema, text) cases per configuration incl. mutated texts, with message, "
                "category, line and column (0 disagreements).",
     level_note="Trusted: Lean kernel + propext/Classical.choice/Quot.sound; harness/driver comparison; the universal seed and serde's visitors "
                "as transcribed; std parse/cast and ryu/Display as parameters; the hand-written typed text model (validated by "
-               "correspondence). Partial: the text leg of the three-way theorem is proved for every build without arbitrary_precision "
-               "and covered by correspondence under it. Open findings (arbitrary_precision only): literal -0, "
-               "non-finite literals into f64, Display-form literals into Value.",
+               "correspondence); str::parse::<f64> assumed correctly rounded (std's contract). Partial: under arbitrary_precision the "
+               "text leg is proved outside the three open findings (literal -0 into i8..i64 and into Value, non-finite literals "
+               "into f64, Display-form literals into Value), where the claim is false; the f64 comparison assumes a correctly "
+               "rounded JSON conversion (proved under float_roundtrip, a hypothesis in the default build).",
 )
 
 PROPS["C15"] = dict(
@@ -1449,19 +1469,23 @@ def _add(p, key, items):
     PROPS[p][key] = list(PROPS[p][key]) + list(items)
 
 _add("C01", "partial", [
-    "number-range clause: `numbersInRange` in c01_accepts_iff is `(Spec.Canon.numOf cfg p).isSome`, and numOf IS the configured conversion "
-    "(Model.Num.convertDefault / convertRoundtrip) - for this clause the theorem says 'the converter does not fail', not 'within finite f64 "
-    "range'. Under float_roundtrip the two coincide (c07_nearest_even + c07_all_sources: rejected exactly when the nearest-even rounding "
-    "is infinite). In the default build they do NOT: the crate (and the model) reject some literals whose value is below f64::MAX by less "
-    "than 2 ulp (17976931348623156225e289, 1.7976931348623158e308 rounds to f64::MAX) and accept some above 2^1024 "
-    "(179769313486231591e291, finding C08-F1); proved band: rejected => exact >= 2^1024-2^970-2^972, exact >= 2^1024+2^972+2^965 => "
-    "rejected (c08p_rejected_only_near_threshold, c08p_overflow_direction_partial). The driver's C01 oracle uses the same numOf, so it "
-    "cannot see this band; C08's exact-rational oracle does (findings C08-F1 and the within-2-ulp rejections are reported there)",
+    "number-range clause, default build only: `numbersInRange` in c01_accepts_iff is `(Spec.Canon.numOf cfg p).isSome`, the model's "
+    "conversion. Under float_roundtrip this is now a theorem about the specification: c01_range_fr (numbersInRange <=> "
+    "Spec.Range.finiteRange: integer literal within [i64::MIN, u64::MAX] or exact decimal value with a finite nearest-even binary64 "
+    "rounding) and c01_accepts_iff_fr (the accepted language with no notion of the model on the right-hand side; inputs shorter than "
+    "2^29-20 bytes). In the DEFAULT build the equivalence is false in both directions and stays so: only the band is proved "
+    "(c01_range_default_band: accepted => exact < 2^1024+2^972+2^965, exact < 2^1024-2^970-2^972 => accepted) with kernel-checked "
+    "witnesses on both sides (c01_default_rejects_finite: 17976931348623156225e289 is below f64::MAX and rejected; "
+    "c01_default_accepts_infinite: 179769313486231591e291 >= 2^1024 is accepted) - open finding C01-default-range-band. The driver "
+    "judges the clause with Spec.Range (roundNE64 of the exact value; c01_range_oracle) independently of Model.Num",
     "fuel: numValue maps the conversion's outOfFuel to NumberOutOfRange; that outcome is excluded by c14_no_fuel / c08p_link, not by this theorem",
 ])
 _add("C02", "partial", [
     "for float literals `canon` is the configured conversion itself (Spec.Canon.numOf = Model.Num.convert*): c02_value_is_canon says nothing "
-    "about float accuracy (C07: nearest-even under float_roundtrip, c07_all_sources; C08: 5 ulp in the default build)",
+    "about float accuracy (C07: nearest-even under float_roundtrip for EVERY literal, c07_typed_nearest_all / c07_nearest_even_all; C08: "
+    "5 ulp in the default build). The driver no longer rests on that: every number of the value the crate returns is matched with its "
+    "literal in the text and judged with Spec.Decimal / Spec.Ieee alone (exact integer; float within 5 ulp, resp. the nearest-even "
+    "double under float_roundtrip) - verdict `C02 <src>: float value of literal ...`",
 ])
 _add("C04", "partial", [
     "c04_value_ap / c04_reparse_ap and every c04_* theorem other than c04_ap_* / c04_rv_* are theorems about the machine model, which "
@@ -1481,26 +1505,14 @@ _add("C05", "partial", [
     "hex4 and a naive scan (no theorem equates the machine's hex4 with Spec.Str.hex4Val; both are run against the crate)",
 ])
 _add("C06", "partial", [
-    "c06_typed: for the 128-bit targets Model.TypedInt.deIntText is written as the specification minus the -0 line, so that branch of the "
-    "theorem is true by construction; the real do_deserialize_i128 / u128 is Model.Typed.deInt128, covered by c06_via_value (textInt) and "
-    "c10_typed_prefix. IntTy has ten widths (isize / usize are not separate: 64-bit target)",
+    "IntTy has ten widths (isize / usize are not separate: 64-bit target)",
 ])
-_add("C07", "partial", [
-    "c07_limbs_total / c07_bhcomp_limbs_exact assume -2048 < scaled_exponent < 1024; no theorem shows that the call sites of bhcomp inside "
-    "parse_truncated_float / deFloatRoundtrip stay in that range, so c07_correct remains a statement with Bigint = Nat and the limb-level "
-    "closure is not yet composed with it (the range holds on every generated case: op lm and the f64rt families)",
-    "c07_nearest_even / c07_typed_nearest exclude by hypothesis (a) integer literals within u64 / i64 read as f64 / f32 - these are serde's "
-    "`as` casts (assumed correctly rounded; C08-F2-like double rounding cannot occur for f64, and for f32 under float_roundtrip the cast is "
-    "direct) - and (b) exponents beyond i32, covered only by c07_other_literals, which restates the exponent-overflow rule of the model "
-    "without relating it to Overflows64 / underflow",
-])
-_add("C08", "partial", [
-    "c08_f32_once is true by construction: Model.FloatDefault.Parts.toF32 is defined as toF64 then F64.toF32 off the integer path; the f32 "
-    "clause is tied to the crate by the correspondence (op f32lit) and, for typed targets, by c07_typed_f32_link (default build: "
-    "deNumber .f32 = convertDefault then serde's f32 visitor)",
-    "c08_underflow_zero requires exact <= 2^-1076; for exact values in (2^-1076, 2^-1075) - which round to 0 - no theorem says the result is "
-    "+-0 (it may be the least subnormal: within 1 ulp, covered by c08_within_5ulp)",
-])
+# C07: both items of the honesty pass are closed (wip-range): c07_bhcomp_calls_in_range / c07_correct_limbs compose the limb-level
+# closure with c07_correct; c07_int_literals_nearest / c07_typed_nearest_all / c07_nearest_even_all / c07_exponent_overflow_spec
+# leave no excluded class of literals.
+# C08: both items of the honesty pass are closed (wip-range): c08_f32_once_typed states the f32 clause on the typed path
+# (c08_f32_once, true by construction, is kept as a lemma about Model.FloatDefault only); c08_underflow_zero_sharp covers the
+# whole interval below 2^-1075.
 _add("C09", "partial", [
     "c09_slice_reader (and with it the slice/reader half of c09_stream_offsets and c09_untyped_line_col) is close to true by construction: "
     "Model.Machine has ONE reader abstraction and consults env.src only in the UTF-8 check of endStr and in errIdx, where every error is "
@@ -1550,7 +1562,6 @@ _add("C13", "partial", [
     "well-behaved Display (assumption)",
     "c13_read is near-definitional (runFault = feed with end-of-input replaced by Io); its content is the modelling claim that every state "
     "asks for another byte, tied by op rfault at every k",
-    "the error KIND is not part of the models' Io outcome ('carrying that error's kind' is checked by the harness: IO:<kind>); "
     "c13_typed_fault alone does not bound the error index - that follows from c13_typed_fault_eq + typed_within_input",
 ])
 _add("C16", "partial", [
@@ -1558,11 +1569,10 @@ _add("C16", "partial", [
     "generated by op c16x)",
     "both legs compare success / failure and the value; error messages are not compared",
     "c16_agree_partial restates c16_owned_borrowed",
-])
-_add("C20", "partial", [
-    "'as_str(), Display and re-serialisation reproduce the literal exactly; parse-then-serialise changes nothing but whitespace': holds by "
-    "the serializer model's definition on Num.lit + c03_display_number; no text -> value -> text theorem is listed (c04_value_ap is value "
-    "-> text -> value)",
+    "arbitrary_precision: c16_text_agrees_ap_partial excludes exactly the three open ap findings (no theorem can cover them: the claim is "
+    "false there, kernel-checked) and carries the float hypothesis apAccurate, discharged only under float_roundtrip (C07, literals "
+    "below 2^29 - 20 bytes with the exponent digits inside de.rs's i32 guard); str::parse::<f64> is std's and ASSUMED correctly rounded "
+    "(false for texts above ~655 KB: finding C20-as-f64-exponent-saturation); the ap configuration is part of the thorough tier only",
 ])
 
 # ---- gaps of the honesty pass closed by theorems (branch wip-c11b): C11 converse of eof_at_end, grammar reading without SideOK,
@@ -1609,3 +1619,185 @@ _add("C09", "partial", [
     "c09_ap_token_not_string_reader_later; witnesses c09_token_sources_differ; open finding C09-private-token-invalid-type-position, "
     "exercised by the thorough tier, which runs the private-token generators of C01 with the full outcome compared)",
 ])
+# ---- the two real string scanners of read.rs (Model.ReadSlice / ReadIo / ReadEscape; docs/READERS-NOTES.md). Additive amendments of C09 and C05.
+READERS_RULE = (" String scanners called directly (ops rd, rs; harness/src/readers.rs): serde_json::de::{StrRead, SliceRead, IoRead} are public and "
+                "the #[doc(hidden)] methods of the sealed trait Read can be called: parse_str, parse_str_raw, ignore_str (and decode_hex_escape "
+                "wherever a \\u has just been read) after `start` calls of next(), on the three readers side by side (IoRead over a randomly chunked "
+                "io::Read), observing bytes, Reference::Borrowed vs Copied (does the returned pointer lie inside the input, at which offset), "
+                "byte_offset() afterwards, or message, category, line, column and byte_offset(). Inputs: every escape family of c01::strings() as "
+                "bare literals (all ordered pairs of \\uXXXX over the 16 surrogate-class boundary values, triples after a leading surrogate, every "
+                "plane as a pair, 1500 (thorough 20000) random pairs), all 256 byte values at 12 position classes (raw, after a backslash, at each "
+                "of the four hex positions, after a leading surrogate, after its backslash, inside the second group) closed and at the end of "
+                "input, 11 literals with \\u groups cut at every length (with quotes / newlines / non-digits among the last bytes), bodies of every "
+                "length 0..26 (thorough 40) after 0..8 spaces with each of 8 special bytes at every offset (8-byte SWAR chunk boundaries), runs of "
+                "63..1000 (thorough 4097) bytes plain / with one escape / with a control byte / unclosed / all-\\u, 16 ill-formed and 6 well-formed "
+                "UTF-8 sequences in 6 contexts, 4000 (thorough 60000) random mixtures; a subset also end to end through Deserializer::from_str / "
+                "from_slice / from_reader into String, &str, ByteBuf, IgnoredAny (op rs). Non-trivial: the bytes after `start` are not all plain "
+                "ASCII, or the call fails.")
+PROPS["C09"]["rule"] += READERS_RULE
+PROPS["C05"]["rule"] += READERS_RULE
+PROPS["C09"]["lean_targets"] = PROPS["C09"]["lean_targets"][:-1] + ["SJ.Props.C09Readers"] + PROPS["C09"]["lean_targets"][-1:]
+PROPS["C05"]["lean_targets"] = PROPS["C05"]["lean_targets"][:-1] + ["SJ.Props.C09Readers"] + PROPS["C05"]["lean_targets"][-1:]
+PROPS["C09"]["gen_keys"] = PROPS["C09"]["gen_keys"] + ["readesc.", "ReadEsc", "hex.", "swar.", "Hex", "Swar"]
+PROPS["C05"]["gen_keys"] = PROPS["C05"]["gen_keys"] + ["readesc.", "ReadEsc"]
+PROPS["C09"]["lean_targets"] = PROPS["C09"]["lean_targets"][:-1] + ["SJ.Props.C09ReadersRaw"] + PROPS["C09"]["lean_targets"][-1:]
+# the honesty-pass item about c09_slice_reader (one reader abstraction in Model.Machine) is answered for strings: replace it
+PROPS["C09"]["partial"] = [x for x in PROPS["C09"]["partial"] if not x.startswith("c09_slice_reader (and with it")] + [
+    "c09_slice_reader is a theorem about Model.Machine, which has ONE reader abstraction (env.src is consulted only in endStr's UTF-8 check and "
+    "in errIdx). For STRING LITERALS - where the crate really has two scanners - this is no longer the whole story: SliceRead / StrRead and "
+    "IoRead are modelled separately (Model.ReadSlice, Model.ReadIo; the generic parse_escape / parse_unicode_escape / ignore_escape once, "
+    "Model.ReadEscape, as in the crate) and each is proved to refine the machine's string steps on every input (c09_machine_string_steps, "
+    "c09_slice_str_refines, c09_strread_str_refines, c09_io_str_refines, c09_slice_ignore_refines, c09_io_ignore_refines; raw variant against "
+    "Model.Typed.runRaw: c09_slice_raw_refines, c09_io_raw_refines), hence c09_str_readers_agree / c09_raw_readers_agree / "
+    "c09_str_readers_positions / c09_strread_slice are theorems about two different pieces of code. OUTSIDE string literals (whitespace, "
+    "numbers, idents, structure) de.rs is one generic body over next / peek / discard; there the difference between the sources is the "
+    "position bookkeeping, modelled separately in Model.LineCol (c09_readers_in_step, c09_positions_agree); the machine's 'reader' for those "
+    "parts remains one abstraction tied by the three-source correspondence run",
+    "the refinement theorems are stated from the state de.rs calls the functions in (slice: index <= len; reader: i bytes handed out, peek "
+    "slot empty, clean end of input); Error::io of a failing reader inside a string is Model.IoFault's business (C13), not modelled in "
+    "Model.ReadIo; the models are list-based (no usize overflow, no allocation failure)",
+]
+PROPS["C05"]["partial"] = [x for x in PROPS["C05"]["partial"] if not x.startswith("two clauses of the statement have no theorem")] + [
+    "borrowed clause: c05_borrowed / c05_borrowed_subslice (SliceRead::parse_str returns Reference::Borrowed exactly when the body holds no "
+    "backslash, and then the bytes are input[start .. end-1]) are theorems about Model.ReadSlice, the separately modelled slice scanner "
+    "(SWAR scan, bulk copy, scratch.is_empty() test), tied to the crate by op rd (pointer range of the returned &str). The step from "
+    "Reference::Borrowed to '<&str>::deserialize succeeds' is serde's visitor convention (visit_borrowed_str vs visit_str), observed by op rs",
+    "bytes clause ('WTF-8 for unpaired surrogates, raw non-UTF-8 passes through'): both readers' parse_str_raw are proved equal to "
+    "Model.Typed.runRaw (c09_slice_raw_refines, c09_io_raw_refines), the automaton behind the typed bytes target; there is no theorem "
+    "relating runRaw to an independent WTF-8 specification, and the borrowed flag of the raw variant is checked per case only (op rd R); "
+    "the decode theorems c05_decode_spec / c05_roundtrip are for the Value target of the machine, to which the real scanners are now tied "
+    "by c09_slice_str_refines / c09_io_str_refines + c09_machine_string_steps",
+]
+READERS_TB = ("the two string scanners of read.rs are modelled separately (Model.ReadSlice over Model.Swar.skipToEscape + Model.LineCol.SlicePos; "
+              "Model.ReadIo over Model.LineCol.IoPos; the generic free functions once in Model.ReadEscape) and proved to refine the machine's "
+              "string steps; what stays trusted there: the hand transcription of control flow (validated by ops rd / rs calling the real methods), "
+              "tools/extract.py gen_readesc for the escape letters / surrogate bounds / pair constants / hex-group lengths, str::from_utf8 = "
+              "Spec.Utf8.validUtf8, Vec / slice operations by documented semantics, memchr2 by contract (C05)")
+PROPS["C09"]["trusted_base"] = PROPS["C09"]["trusted_base"] + [READERS_TB]
+PROPS["C05"]["trusted_base"] = PROPS["C05"]["trusted_base"] + [READERS_TB]
+PROPS["C09"]["level_text"] += (" String scanners (Props/C09Readers.lean, Props/C09ReadersRaw.lean): SliceRead/StrRead and IoRead are separate models "
+                               "and each refines the machine's string steps on every input - same decoded bytes and end index, or same error code at "
+                               "the same index (control characters, invalid escapes, lone / unpaired surrogates, \\u cut by the end of input: both "
+                               "EofWhileParsingString at the end of input whenever fewer than four bytes follow \\u, InvalidEscape at k+4 otherwise iff "
+                               "not four hex digits; InvalidUnicodeCodePoint at the closing quote) - hence agree with each other, with the same line "
+                               "and column; &str = slice on valid UTF-8; parse_str_raw of both = Model.Typed.runRaw.")
+PROPS["C05"]["level_text"] += (" Borrowed clause: c05_borrowed / c05_borrowed_subslice over the separately modelled slice scanner (Model.ReadSlice); "
+                               "the real scanners are tied to the machine's decode theorems by c09_slice_str_refines / c09_io_str_refines.")
+# wip-range: the number-range clause on the specification side (Spec.Range, Props/C01Range)
+PROPS["C01"]["lean_targets"] = ["SJ.Props.C01", "SJ.Props.C01Iff", "SJ.Props.C01Range", "SJ.Audit.C01"]
+
+# wip-range: C07 without excluded classes and with the limb-level closure composed; C08 sharpened
+PROPS["C07"]["lean_targets"] = ["SJ.Props.C07", "SJ.Props.C07Total", "SJ.Audit.C07"]
+PROPS["C08"]["lean_targets"] = ["SJ.Props.C08", "SJ.Props.C08Parser", "SJ.Props.C08Sharp", "SJ.Audit.C08"]
+PROPS["C01"]["level_text"] += (
+    " Number range on the specification side (Props/C01Range): c01_range_fr, c01_accepts_iff_fr (float_roundtrip: accept <=> JSON "
+    "text + side conditions with Spec.Range.finiteRange - exact decimal value, nearest-even rounding finite - for inputs shorter than "
+    "2^29-20 bytes), c01_range_default_band with the witnesses c01_default_rejects_finite / c01_default_accepts_infinite (default build: "
+    "only a band of 2 ulp either side of 2^1024-2^970 is undetermined; open finding C01-default-range-band), c01_range_oracle (the "
+    "driver's executable verdict decides finiteRange).")
+PROPS["C01"]["rule"] += (" Tag range-band: literals in and around the band [2^1024-2^970-2^972, 2^1024+2^972+2^965) in 17-25 digit, "
+    "pointed, 0.000-prefixed, e/E/e+ and 309-digit integer spellings (exact 2^1024-2^970, f64::MAX, 2^1024 and neighbours), top level and "
+    "nested in arrays / objects; tag range-tiny: exponents below -308, subnormals, underflow. The accept/reject of the crate on them is "
+    "judged by Spec.Range (exact rational, roundNE64), not by the model.")
+PROPS["C02"]["rule"] += (" Every number of a returned value is matched with its literal in the text and judged with Spec.Decimal / "
+    "Spec.Ieee alone: exact integer, float within 5 ulp (default build) resp. the nearest-even double (float_roundtrip).")
+PROPS["C07"]["level_text"] += (
+    " Closed gaps (Props/C07Total): c07_bhcomp_calls_in_range (every call of bhcomp by parse_concise_float / parse_truncated_float has "
+    "a non-zero mantissa and scaled_exponent in [-1118, 330), inside the range of c07_limbs_total) and c07_correct_limbs (the whole "
+    "conversion with bhcomp.rs on limb vectors through math.rs, Model.LexicalLimbs, never panics and equals the specification); "
+    "c07_nearest_even_all and c07_exponent_overflow_spec (exponent digits beyond i32: NumberOutOfRange iff Overflows64/32 of the exact "
+    "value, otherwise +-0 = the nearest-even value); c07_int_literals_nearest (u64/i64 literals cast by serde's visitor are nearest-even "
+    "for f64 and, rounded once, for f32) and c07_typed_nearest_all (deserialize_f64 / deserialize_f32 under float_roundtrip return the "
+    "nearest-even value of EVERY literal; rejected exactly when it is infinite).")
+PROPS["C08"]["level_text"] += (
+    " Sharpened (Props/C08Sharp): c08_underflow_zero_sharp(_parts) / c08p_underflow_zero_sharp - every exact value below 2^-1075 (the whole "
+    "interval that rounds to zero) gives +-0: monotonicity of nearest-even rounding + kernel evaluation of the largest u64 significand "
+    "below the bound at each of the twenty exponents -324..-343; c08_f32_once_typed - on the typed path (Model.Typed.deNumber) in the "
+    "default build deserialize_f32 returns F64.toF32 of what deserialize_f64 returns on a float-path literal and fails alike "
+    "(c08_f32_once_typed_fails_on_large_int: finding C08-F2 on the typed path).")
+PROPS["C08"]["rule"] += (" Tag tiny-band: for each exponent -324..-343 the largest u64 significand below 2^-1075, its neighbours and "
+    "random significands in the upper half of (2^-1076, 2^-1075), in every spelling.")
+
+# ---- gaps of the honesty pass closed by theorems (branch wip-smalls): C20 text -> value -> text; C05 bytes target; C13 kind;
+#      C06 128-bit typed path; C08 typed f32.
+PROPS["C20"]["lean_targets"] = PROPS["C20"]["lean_targets"][:-1] + ["SJ.Props.C20Text"] + PROPS["C20"]["lean_targets"][-1:]
+PROPS["C20"]["configs"] = dict(quick=["ap"], thorough=["ap", "frap", "poap"])
+PROPS["C20"]["rule"] += (" Op reprint also on 900 (thorough 6000) generated documents with objects and strings, blanks at every place the "
+    "grammar allows and inside string literals: half of them with distinct keys in the map's order and every string in the serializer's "
+    "spelling (the output must be the input minus insignificant whitespace), the others breaking one proviso each (keys out of order, a "
+    "duplicate key, another RFC 8259 spelling of a string: \\u0041, \\/, \\ud83d\\ude00); thorough also under preserve_order (poap).")
+PROPS["C20"]["level_text"] += (
+    " Text -> value -> text (Props/C20Text.lean over Spec/TextNorm.lean, Proofs/TextNorm.lean): c20_text_roundtrip - for every text bs the "
+    "parser accepts under arbitrary_precision, with t its syntax tree and v the value: to_string(v) succeeds and is (1) always the compact "
+    "rendering of v = Spec.Canon.canon t (members in the Map's order, a duplicate key collapsed to its last value), (2) normText t - the "
+    "input's tokens in the input's order, no whitespace, EVERY NUMBER LITERAL BYTE FOR BYTE, strings in the serializer's spelling - when "
+    "every object has distinct keys standing in ascending byte order (Spec.TextNorm.keysInMapOrder; under preserve_order distinctness "
+    "alone), (3) stripWs bs - the input with the whitespace outside string literals removed by an independent byte-level scan, nothing "
+    "else changed - when moreover the string literals are spelled as the serializer spells them (spelledCanonically: RFC 8259 allows "
+    "other spellings of the same string, \\u0041 or \\/, which do not survive). c20_text_roundtrip_ap: the same for the token-aware "
+    "model Model.MachineAp on inputs without a private-token first key (c01_ap_conservative). c20_number_display: a parsed number "
+    "literal p gives Num.lit p.bytes and as_str, Display (one write_str), to_string of the Number, of the Value in both formatters and "
+    "Value's Display all return exactly p.bytes. The executable statement of op reprint is now clause (2) / (3) on the tree found by "
+    "the independent recogniser, and the model column is serCompact (ofValue (parseTop doc)).")
+PROPS["C20"]["technique"] += ("; composition of parser soundness (C02), the serializer theorem for Value (C03) and a mutual induction over the "
+    "syntax tree (render of the canonical value = compact spelling of the tree; a member list in map order is the map it builds); "
+    "induction over derivations for the byte-level whitespace stripper")
+
+# C05 bytes clause (branch wip-smalls): independent WTF-8 specification + theorem on every input; finding for bare control characters
+PROPS["C05"]["lean_targets"] = PROPS["C05"]["lean_targets"][:-1] + ["SJ.Props.C05Bytes", "SJ.Props.C05BytesReaders"] + PROPS["C05"]["lean_targets"][-1:]
+PROPS["C05"]["partial"] = [x for x in PROPS["C05"]["partial"] if not x.startswith("bytes clause ('WTF-8 for unpaired surrogates")] + [
+    "bytes clause: c05_bytes_target_total characterises parse_str_raw on EVERY input by the independent Spec.Wtf8 (lex + decodeBytes) and "
+    "c05_bytes_target_readers carries it to both real scanners (through c09_slice_raw_refines / c09_io_raw_refines). ONE deviation from the "
+    "statement, open finding C05-bytes-control-char-accepted: 'the same decoding applies' keeps the rejection of a bare control character, "
+    "the crate's non-validating scanner (validate = false) copies it - the theorems describe the code (a raw item is any byte but quote and "
+    "backslash; witness c05_bytes_control_passes), op bytesctl reports the deviation. The borrowed flag of the raw variant is still "
+    "checked per case only (op rd R)",
+]
+PROPS["C05"]["rule"] += (" Op bytesctl: each of the 32 control bytes alone in a literal (and three of them in a context with an escape, a "
+    "multi-byte character and a lone surrogate escape) read as ByteBuf from str / slice / reader; 0x20 and 0x7f as controls of the check. "
+    "Op rd R additionally carries the executable bytes clause (Spec.Wtf8: decoded bytes, end offset, InvalidEscape / Eof position) on "
+    "every generated case.")
+PROPS["C05"]["level_text"] += (
+    " Bytes clause (Spec/Wtf8.lean, Proofs/Wtf8.lean, Props/C05Bytes.lean, Props/C05BytesReaders.lean): Spec.Wtf8.decodeBytes - raw bytes "
+    "copied (0x80-0xFF in any arrangement), simple escapes replaced, \\uXXXX -> UTF-8 of the code point, a high surrogate escape "
+    "immediately followed by a low one -> the four-byte UTF-8 of the scalar, ANY OTHER surrogate escape -> its three-byte generalized "
+    "UTF-8 (WTF-8) form ED A0..BF 80..BF (c05_bytes_wtf8_form) - and Spec.Wtf8.lex, the RFC 8259 item structure of an arbitrary byte "
+    "string. c05_bytes_target_total: Model.Typed.parseStrRaw (the automaton behind deserialize_bytes / deserialize_byte_buf) on EVERY "
+    "input, every source, configuration and fault mode, returns exactly decodeBytes of the items up to the closing quote with the unread "
+    "input and the index just past the quote; or InvalidEscape at the byte after a backslash that starts no escape / at the fourth byte "
+    "of a \\u group that is not four hex digits; or EofWhileParsingString at the end (Io for a failing reader). c05_bytes_target / "
+    "c05_bytes_target_only (a success is exactly a well-formed literal), c05_bytes_errors (no other error code: never a control-character, "
+    "surrogate or UTF-8 error), c05_bytes_entry (through deBytes), c05_bytes_raw_passthrough (a content without quote and backslash is "
+    "returned as it stands, UTF-8 or not), c05_bytes_lone_surrogate, c05_bytes_vs_str (whatever the validating parse_str accepts the "
+    "bytes decoder accepts with the same bytes, rest and position; c05_bytes_vs_str_spec: decodeItems = some s => decodeBytes = s), "
+    "c05_bytes_target_readers (the same characterisation for SliceRead / StrRead / IoRead::parse_str_raw as separately modelled). "
+    "c05_bytes_control_passes: the witness of finding C05-bytes-control-char-accepted (a bare line feed is copied by the bytes target, "
+    "rejected by the text target).")
+PROPS["C05"]["technique"] += ("; an independent WTF-8 decoding specification and a simulation of the raw-string automaton (pending-surrogate "
+    "formulation = look-ahead formulation) by strong induction on the input")
+
+# C13 reader kind (branch wip-smalls)
+PROPS["C13"]["lean_targets"] = PROPS["C13"]["lean_targets"][:-1] + ["SJ.Props.C13Kind"] + PROPS["C13"]["lean_targets"][-1:]
+PROPS["C13"]["gen_keys"] = PROPS["C13"]["gen_keys"] + ["iokind.", "IoKind"]
+PROPS["C13"]["level_text"] += (
+    " The KIND (Props/C13Kind.lean over Model/IoKind.lean, Gen/IoKind.lean): the models' Io outcomes carry no payload; "
+    "Model.IoKind.parseFaultK threads the failing read's io::Error through IoRead::next / peek (`Some(Err(err)) => Err(Error::io(err))`, "
+    "the one arm for a failed read in each: Gen.ioReadErrArms = 2), Error::io (stores it: Gen.errorIoStoresError), classify (Io), "
+    "io_error_kind (`Some(io_error.kind())`: Gen.ioErrorKindReturnsInner) and io::Error::from (gives it back), all four shapes "
+    "re-extracted from src/read.rs / src/error.rs on every run (c13_io_error_kind_link). c13_kind_preserved: the outcome is "
+    "Model.IoFault.parseFault's with the error attached; when that is Io, classify() = Io, io_error_kind() = Some(e.kind) - THAT "
+    "error's kind - and io::Error::from returns e; a parser error of the delivered bytes has io_error_kind() = None; "
+    "c13_kind_only_from_reader (a reported kind is the reader's); c13_typed_kind_preserved, c13_item_kind (typed targets, stream "
+    "items: by attachment). Thin by design - the content is the four extracted shapes; the driver's rfault model now prints IO:<kind> "
+    "from io_error_kind() of the model's outcome instead of echoing the case line.")
+
+# C06 128-bit typed path (branch wip-smalls)
+PROPS["C06"]["lean_targets"] = PROPS["C06"]["lean_targets"][:-1] + ["SJ.Props.C06Typed128"] + PROPS["C06"]["lean_targets"][-1:]
+PROPS["C06"]["level_text"] += (
+    " The 128-bit branch of c06_typed is a statement about Model.TypedInt.deIntText, which is written as the specification there; "
+    "Props/C06Typed128.lean ties it to the transcription: c06_typed_text - for every literal of the grammar, every width, source and "
+    "configuration, from_str::<w> as transcribed (Model.Typed.deTypedTop -> deInt -> deNumber / deInt128 = do_deserialize_i128 / u128: "
+    "scan_integer128 + str::parse, then end(); projected by Model.ViaValue.textInt) = deIntText on the literal's parts = specInt; "
+    "c06_typed_128 - the 128-bit case spelled out (integer literal, no minus sign for u128, -0 accepted as 0, exact range check; "
+    "deInt = deInt128 there); specInt_eq_targetInt - the specification of Model.TypedInt and the statement-level verdict "
+    "Spec.NumberAcc.targetInt of c06_via_value are the same function of the literal.")
